@@ -1,5 +1,6 @@
 //@item src/charwise/builder.rs type CharwiseNfaBuilder
 //@item src/charwise/builder.rs struct CharwiseDoubleArrayAhoCorasickBuilder
+//@include ghost_bits_cw.rs
 //@include ghost_build_cw.rs
 //@include ghost_nfa_cw.rs
 
